@@ -358,3 +358,55 @@ def powers_roles(db):
     alpha = next(iter(mult))
     rest = [k for k in felts if k != alpha]
     return {'fn': fn, 'n': ints[0], 'alpha': alpha, 'initial': rest[0] if rest else None}
+
+
+def constants_check(db, rep, rule, cfg, layouts=True, other=()):
+    """numeric constants against tables/constants.json (values confirmed on the pinned tree: Cairo layout parameters,
+    AIR sizes, protocol bounds). A constant that still exists must have the tabled value; a constant that was removed or
+    renamed is not reported (that is a refactor; its uses are covered by the rules that look at them). FELT_<n> constants
+    must equal n whatever the table says."""
+    import json
+    import os
+    import re
+    import literals
+    tab = json.load(open(os.path.join(os.path.dirname(os.path.dirname(os.path.abspath(__file__))), 'tables', 'constants.json')))
+    n = 0
+    if layouts:
+        lay = db.layouts()
+        for lname, lself in sorted(lay.items()):
+            want = tab['layouts'].get(lname, {})
+            impl_vals = {}
+            for i in db.impls:
+                if i.get('self') == lself and i.get('trait', '').endswith('LayoutTrait'):
+                    for it in i['items']:
+                        if 'val' in it:
+                            try:
+                                impl_vals['impl::' + it['name']] = int(it['val'])
+                            except ValueError:
+                                pass
+            bad = []
+            for name, v in sorted(want.items()):
+                cur = impl_vals.get(name) if name.startswith('impl::') else literals.const_value(db, f'swiftness_air::layout::{lname}::{name}')
+                if cur is None:
+                    continue
+                n += 1
+                if cur != v:
+                    bad.append(f'{name} = {cur} (confirmed value {v})')
+            rep.ob(rule, f'layout/{lname}', not bad, f'{lname}: {len(want)} layout constants' + (f'; changed: {bad[:4]}' if bad else ' agree with the table'),
+                   f'crates/air/src/layout/{lname}/mod.rs', cfg)
+    for prefix in other:
+        bad = []
+        k = 0
+        for path, v in sorted(tab['other'].items()):
+            if not path.startswith(prefix):
+                continue
+            cur = literals.const_value(db, path)
+            if cur is None:
+                continue
+            k += 1
+            n += 1
+            m = re.search(r'::FELT_(\d+)$', path)
+            if cur != v or (m and cur != int(m.group(1))):
+                bad.append(f'{path.split("::")[-1]} = {cur} (confirmed value {v})')
+        rep.ob(rule, f'consts/{prefix}', not bad, f'{k} constants under {prefix}' + (f'; changed: {bad[:4]}' if bad else ' agree with the table'), '', cfg)
+    return n
